@@ -588,3 +588,130 @@ Theorem C12_deltran_sets_are_delayed_transformation_refuted :
   forall l, shape_ok dw_tree l = true -> delayed dw_ts dw_tree l -> lroot l = 0.
 Proof. exact deltran_sets_are_delayed_transformation_refuted. Qed.
 Print Assumptions C12_deltran_sets_are_delayed_transformation_refuted.
+
+(** * the remaining instantiations on the sequence variant *)
+Theorem C12_asr_unambiguous :
+  forall aln t j,
+    wf t = true -> 2 <= degree t ->
+    (forall n, In n (leaves t) -> exists x, nth x (asr_tipvec aln j n) 0 = 1) ->
+    (vall single (asr_vt aln t j Downpass) -> optimal (asr_ts aln j) t (lab_of t (asr_vt aln t j Downpass))) /\
+    (vall single (asr_vt aln t j Deltran) -> optimal (asr_ts aln j) t (lab_of t (asr_vt aln t j Deltran))) /\
+    (vall single (asr_vt aln t j Acctran) -> optimal (asr_ts aln j) t (lab_of t (asr_vt aln t j Acctran))).
+Proof.
+  intros aln t j Hwf Hd Hv. split; [|split].
+  - exact (asr_downpass_unambiguous aln t j Hwf Hd Hv).
+  - exact (asr_deltran_unambiguous aln t j Hwf Hd Hv).
+  - exact (asr_acctran_unambiguous aln t j Hwf Hd Hv).
+Qed.
+Print Assumptions C12_asr_unambiguous.
+
+Theorem C12_asr_site_steps_reroot :
+  forall aln t j,
+    wf t = true -> 2 <= degree t ->
+    (forall n, In n (leaves t) -> exists x, nth x (asr_tipvec aln j n) 0 = 1) ->
+    forall a i t', reroot t i = Ok t' ->
+      snd (parsimony true (asr_tv aln j) 6 a t') = snd (parsimony true (asr_tv aln j) 6 a t).
+Proof. exact asr_site_steps_reroot. Qed.
+Print Assumptions C12_asr_site_steps_reroot.
+
+(** the theorems assume a root with at least two neighbours; on a root with one neighbour
+    (a "tip" for the code) the reconstruction stops at the root: stated, not excused *)
+Theorem C12_acr_root_with_one_neighbour_partial :
+  forall t m a, is_tip t = true ->
+    match lookup (uname t) m with
+    | None => parsimony_acr t m a = Err ("Tip " ++ uname t ++ " does not exist in the tip/state mapping file")
+    | Some _ => exists r, parsimony_acr t m a = Ok r /\ acr_steps r = 0
+    end.
+Proof. exact acr_root_with_one_neighbour. Qed.
+Print Assumptions C12_acr_root_with_one_neighbour_partial.
+
+(** * the statements are not vacuous: on the hand-worked tree of acr/acr_test.go *)
+Lemma ex_hyps : wf ex_tree = true /\ 2 <= degree ex_tree /\
+  forall n, In n (leaves ex_tree) -> exists s, lookup n ex_states = Some s.
+Proof.
+  split; [reflexivity|]. split; [unfold degree; simpl; auto|].
+  intros n Hn. simpl in Hn.
+  repeat (destruct Hn as [Hn|Hn]; [subst n; eexists; reflexivity|]). destruct Hn.
+Qed.
+Print Assumptions ex_hyps.
+
+(** 4 steps is the minimum over all labellings (both bounds) *)
+Example C12_example_minimum : is_mincost (acr_ts ex_states) ex_tree 4.
+Proof.
+  destruct ex_hyps as [Hw [Hd Hm]].
+  destruct (parsimony_acr_ok ex_states ex_tree Hw Hd Hm Deltran) as [r [Hr [_ Hs]]].
+  pose proof (acr_steps_optimal ex_tree ex_states Deltran r Hw Hd Hr) as M.
+  rewrite Hs in M.
+  assert (E : up_steps (acr_tv ex_states) (acr_k ex_states) ex_tree = 4) by (vm_compute; reflexivity).
+  rewrite E in M. exact M.
+Qed.
+Print Assumptions C12_example_minimum.
+
+(** DOWNPASS reports A and B at the inner node t19 (path 1,2) and both occur there in
+    most-parsimonious labellings *)
+Example C12_example_downpass_states :
+  vec_at ex_tree (acr_vt ex_states ex_tree Downpass) [1; 2] = Some [1; 1] /\
+  opt_state_at (acr_ts ex_states) ex_tree [1; 2] 0 /\ opt_state_at (acr_ts ex_states) ex_tree [1; 2] 1.
+Proof.
+  destruct ex_hyps as [Hw [Hd Hm]].
+  assert (Hv : vec_at ex_tree (acr_vt ex_states ex_tree Downpass) [1; 2] = Some [1; 1]) by (vm_compute; reflexivity).
+  split; [exact Hv|].
+  assert (Hq : exists x, node_at ex_tree [1; 2] = Some x /\ is_leaf x = false) by (eexists; split; reflexivity).
+  destruct Hq as [x [Hq Hx]].
+  split; apply (acr_downpass_exact ex_states ex_tree Hw Hd Hm [1; 2] x [1; 1] Hq Hx Hv); reflexivity.
+Qed.
+Print Assumptions C12_example_downpass_states.
+
+(** the DELTRAN output is unambiguous at every node, hence most parsimonious *)
+Example C12_example_deltran_unambiguous :
+  optimal (acr_ts ex_states) ex_tree (lab_of ex_tree (acr_vt ex_states ex_tree Deltran)).
+Proof.
+  destruct ex_hyps as [Hw [Hd Hm]].
+  apply (acr_deltran_unambiguous ex_states ex_tree Hw Hd Hm).
+  intros v Hv.
+  replace (vflat (acr_vt ex_states ex_tree Deltran)) with
+      [[1; 0]; [1; 0]; [1; 0]; [1; 0]; [1; 0]; [1; 0]; [0; 1]; [1; 0]; [0; 1]; [1; 0]; [1; 0]; [0; 1];
+       [1; 0]; [1; 0]; [0; 1]; [1; 0]; [1; 0]; [1; 0]; [1; 0]; [1; 0]; [1; 0]] in Hv by (vm_compute; reflexivity).
+  simpl in Hv.
+  repeat (destruct Hv as [Hv|Hv];
+          [subst v; first [ exists 0; split; [reflexivity|]; intros [|[|[|z]]] Hz; simpl in Hz; try reflexivity; discriminate
+                          | exists 1; split; [reflexivity|]; intros [|[|[|z]]] Hz; simpl in Hz; try reflexivity; discriminate ]|]).
+  destruct Hv.
+Qed.
+Print Assumptions C12_example_deltran_unambiguous.
+
+(** re-rooting at the inner node t20 is defined and keeps the 4 steps *)
+Example C12_example_reroot :
+  exists t' r', reroot ex_tree 2 = Ok t' /\ parsimony_acr t' ex_states Acctran = Ok r' /\ acr_steps r' = 4.
+Proof.
+  destruct ex_hyps as [Hw [Hd Hm]].
+  destruct (reroot ex_tree 2) as [t'|msg] eqn:E; [|vm_compute in E; discriminate].
+  destruct (parsimony_acr_ok ex_states ex_tree Hw Hd Hm Acctran) as [r [Hr [_ Hs]]].
+  destruct (acr_reroot_defined ex_tree ex_states Acctran r 2 t' Hw Hd E Hr) as [r' Hr'].
+  exists t', r'. split; [reflexivity|]. split; [exact Hr'|].
+  rewrite (acr_steps_reroot ex_tree ex_states Acctran r 2 t' r' Hw Hd E Hr Hr'), Hs. vm_compute. reflexivity.
+Qed.
+Print Assumptions C12_example_reroot.
+
+(** a small alignment with ambiguity codes, a gap and lower case on (a,b,(c,d)): the hypotheses
+    of the sequence-variant theorems hold at every site, and site 0 (a c A c: unambiguous) agrees
+    with the character variant *)
+Definition ex_aln : list (string * string) := [("a", "aR-"); ("b", "cAY"); ("c", "AnG"); ("d", "cGt")].
+Example C12_example_alignment :
+  wf rw_tree1 = true /\ 2 <= degree rw_tree1 /\
+  (forall j, j < 3 -> forall n, In n (leaves rw_tree1) -> exists x, nth x (asr_tipvec ex_aln j n) 0 = 1) /\
+  (forall n s, In (n, s) ex_aln -> exists c, string_nth 0 s = Some c /\ In (upper c) unamb_chars) /\
+  snd (parsimony true (asr_tipvec ex_aln 0) 6 Downpass rw_tree1) = 2.
+Proof.
+  split; [reflexivity|]. split; [unfold degree; simpl; auto|]. split; [|split].
+  - intros j Hj n Hn. simpl in Hn.
+    destruct j as [|[|[|j]]]; [| | |exfalso; inversion Hj as [|? H1]; inversion H1 as [|? H2]; inversion H2 as [|? H3]; inversion H3];
+      repeat (destruct Hn as [Hn|Hn];
+              [subst n; first [exists 0; reflexivity | exists 1; reflexivity | exists 2; reflexivity
+                              | exists 3; reflexivity | exists 4; reflexivity]|]); destruct Hn.
+  - intros n s Hin. simpl in Hin.
+    repeat (destruct Hin as [Hin|Hin]; [inversion Hin; subst; eexists; split; [reflexivity | vm_compute; auto 10]|]).
+    destruct Hin.
+  - vm_compute. reflexivity.
+Qed.
+Print Assumptions C12_example_alignment.
